@@ -175,10 +175,11 @@ func parent(r *vf.Run) {
 	r.Rule("every scenario = fresh tables per round, workers standing for the goroutines bio-rd itself runs concurrently (FSM goroutines feeding Adj-RIB-Ins, static/other-protocol writers of the Loc-RIB, configuration reload replacing import/export policies, RIS observers registering/unregistering/refreshing, sessions coming up and going down with started update senders, API/metrics readers, LocRIB.Dispose with late registration, a peer that stops reading) with PRNG operation lists, run at GOMAXPROCS 1,2,4,16 in a child process under the no-progress watchdog; after every round a probe (Dump, AddPath, Register+Unregister on every table). Before that a single-goroutine pre-pass runs each lock-then-call-out sequence in order. distinct_nontrivial = (scenario, GOMAXPROCS, round) triples in which at least two operations were inside bio-rd at the same time (in-flight gauge) and the round and its probe completed")
 	r.Assume("a goroutine counts as parked in bio-rd when its wait reason is a mutex/rwmutex/channel operation and its innermost non-runtime frame is bio-rd code",
 		"lock owners are taken from the receiver types of the frames (classification of the witness only; the verdict needs none of it)",
-		"a peer connection may block writes for a while but accepts them again (a connection that blocks for ever is outside the statement)")
+		"a peer connection may block writes for a while but accepts them again (a connection that blocks for ever is outside the statement)",
+		"a listed operation that panics instead of returning has not completed: judged (clause panic) in the deterministic pre-pass; panics that only show under concurrency, and panics of readers, are consequences of unsynchronised accesses, counted here and judged by C26",
+		"static routes are not offered to route-reflector-client sessions with a started update sender (the sender goroutine crashes in the CLUSTER_LIST serializer, a C09 finding, and would take the child down every round)")
 	r.NonDeterministic("deadlock")
 	r.NonDeterministic("table-unusable")
-	r.NonDeterministic("panic")
 	r.NonDeterministic("crash")
 	r.NonDeterministic("goroutine-blocked-forever")
 
@@ -211,7 +212,7 @@ func parent(r *vf.Run) {
 		for _, p := range []int{1, 2, 4, 16} {
 			rn := rounds
 			if strings.HasPrefix(n, "server-") { // real handshakes: ~0.2 s per round
-				rn = r.N(12, 600)
+				rn = r.N(8, 600)
 			}
 			scs = append(scs, Scenario{Name: n, Procs: p, Rounds: rn, Seed: uint64(r.Seed)*1000003 + uint64(p), SampleMS: sample})
 		}
@@ -258,6 +259,9 @@ func parent(r *vf.Run) {
 		judge(r, j)
 		if j.res != nil {
 			for k, v := range j.res.Ops {
+				if strings.HasPrefix(k, "seq.") {
+					k = "sequential pre-pass steps"
+				}
 				ops[k] += v
 			}
 			k := j.res.Verdict.Kind
@@ -267,6 +271,12 @@ func parent(r *vf.Run) {
 			verdicts[k]++
 			procsSeen[j.sc.Procs] = true
 		}
+	}
+	var cp []string
+	concPanics.Range(func(k, _ any) bool { cp = append(cp, k.(string)); return true })
+	sort.Strings(cp)
+	if len(cp) > 0 {
+		r.Set("panic_sites_under_concurrency", cp)
 	}
 	r.Set("operations_by_kind", ops)
 	r.Set("children_by_verdict", verdicts)
@@ -326,9 +336,14 @@ func judge(r *vf.Run, j job) {
 			continue
 		}
 		op := strings.TrimPrefix(p.Kind, "seq.")
-		if res.Scenario.Sequential {
-			op = res.Scenario.Name + ": " + op
+		if !res.Scenario.Sequential {
+			// a panic that only shows under concurrency is the consequence of an unsynchronised access (C26 judges
+			// those); the deterministic ones are found, and judged, in the sequential pre-pass
+			r.Count("panics_under_concurrency_(not_judged_here)", p.Count)
+			concPanics.Store(p.Kind+" @ "+p.Site, true)
+			continue
 		}
+		op = res.Scenario.Name + ": " + op
 		for i := 0; i < p.Count; i++ {
 			r.Violate(vf.Violation{Clause: "panic", Features: vf.F("where", p.Site), Detail: fmt.Sprintf("scenario %s, operation %s panicked instead of completing (bio-rd does not recover: the process would have died): %s", res.Scenario.Name, op, p.Text), Case: cs})
 		}
@@ -369,6 +384,8 @@ func stepText(s string) string {
 	}
 	return " step " + s
 }
+
+var concPanics sync.Map
 
 var readerKinds = map[string]bool{"locRIB.Dump": true, "locRIB.LPM": true, "locRIB.Get": true, "locRIB.GetLonger": true, "adjRIBIn.Dump": true, "adjRIBOut.Dump": true,
 	"server.Metrics": true, "server.GetRIBIn/Out.Dump": true, "counts": true, "adjRIBIn.Get/LPM": true, "adjRIBOut.Get/LPM": true, "locRIB.ContainsPfxPath": true}
